@@ -186,6 +186,21 @@ def extendFunctionEnv (f : FuncVal) (args : List Obj) : M (Except Obj Nat) := do
     let _ ← setNoChecks nenv ".." (newArray extra) true
   pure (.ok nenv)
 
+mutual
+/-- `object.HoldsFunction`: the value is, or contains at any depth of arrays and maps, a function -/
+def holdsFunc : Obj → Bool
+  | .func _ => true
+  | .array els => holdsFuncList els
+  | .map _ kvs => holdsFuncPairs kvs
+  | _ => false
+def holdsFuncList : List Obj → Bool
+  | [] => false
+  | o :: os => holdsFunc o || holdsFuncList os
+def holdsFuncPairs : List (Obj × Obj) → Bool
+  | [] => false
+  | (k, v) :: r => holdsFunc k || holdsFunc v || holdsFuncPairs r
+end
+
 /-- the end of `applyFunction`, after the body was evaluated and the caller's environment and
 writer were restored: replay the captured output, then decide on caching (`before`/`after` = the
 callee frame's miss counter around the body) -/
@@ -198,6 +213,8 @@ def finishCall (f : FuncVal) (args : List Obj) (curState before after : Nat) (ca
     triggerNoCache curState
     return res
   if res.isError then return res
+  -- nor a function: a closure over this very call's environment
+  if holdsFunc res then return res
   cacheSet f.key args res output
   pure res
 
